@@ -937,6 +937,55 @@ w_legacy(int which)
     }
 }
 
+static void
+w_nbit_large(void)
+{
+    /* an n-bit data set whose packed stream (3000 x 12 bits = 4500 bytes) is longer than the 4096-byte buffer of the bit
+       layer, so that part of it is handed to the file in the middle of the write */
+    static int16 v[3000], r[3000];
+    for (int i = 0; i < 3000; i++)
+        v[i] = (int16)((i * 37 + 5) & 0x7ff);
+    api("SDstart");
+    int32 sd = SDstart(F1, DFACC_CREATE);
+    CK("SDstart", sd == FAIL);
+    if (sd == FAIL)
+        return;
+    int32 dims[1] = {3000}, st[1] = {0};
+    api("SDcreate");
+    int32 sds = SDcreate(sd, "packed", DFNT_INT16, 1, dims);
+    CK("SDcreate", sds == FAIL);
+    if (sds != FAIL) {
+        api("SDsetnbitdataset");
+        CK("SDsetnbitdataset", SDsetnbitdataset(sds, 11, 12, FALSE, FALSE) == FAIL);
+        api("SDwritedata");
+        CK("SDwritedata", SDwritedata(sds, st, NULL, dims, v) == FAIL);
+        api("SDendaccess");
+        CK("SDendaccess", SDendaccess(sds) == FAIL);
+    }
+    api("SDend");
+    CK("SDend", SDend(sd) == FAIL);
+    api("SDstart");
+    sd = SDstart(F1, DFACC_READ);
+    CK("SDstart", sd == FAIL);
+    if (sd == FAIL)
+        return;
+    api("SDselect");
+    sds = SDselect(sd, 0);
+    CK("SDselect", sds == FAIL);
+    if (sds != FAIL) {
+        memset(r, 0, sizeof r);
+        api("SDreaddata");
+        int rc = SDreaddata(sds, st, NULL, dims, r);
+        CK("SDreaddata", rc == FAIL);
+        if (rc != FAIL)
+            OUT(r, sizeof r);
+        api("SDendaccess");
+        CK("SDendaccess", SDendaccess(sds) == FAIL);
+    }
+    api("SDend");
+    CK("SDend", SDend(sd) == FAIL);
+}
+
 typedef struct {
     const char *name;
     int         kind, arg1, arg2;
@@ -953,6 +1002,7 @@ static const wl_t WL[] = {
     {"V-attrs+20-members", 8, 0, 0},
     {"SD-rle", 4, 6, 0}, {"SD-skphuff", 4, 7, 0}, {"SD-nbit", 4, 8, 0}, {"SD-nbit-signext", 4, 9, 0},
     {"GR-rle", 5, 2, 0}, {"GR-deflate", 5, 3, 0},
+    {"SD-nbit-large", 10, 0, 0},
     {"DFR8", 9, 0, 0}, {"DF24", 9, 1, 0}, {"DFSD", 9, 2, 0}, {"DFAN", 9, 3, 0}, {"DFP", 9, 4, 0},
 };
 #define NWL ((int)(sizeof WL / sizeof WL[0]))
@@ -979,6 +1029,7 @@ run_workload(int w)
         case 7: w_h_reopen(WL[w].arg1); break;
         case 8: w_v_attrs(); break;
         case 9: w_legacy(WL[w].arg1); break;
+        case 10: w_nbit_large(); break;
     }
     api("(end)");
 }
